@@ -250,7 +250,7 @@ class Explorer(object):
 
 # -------------------------------------------------------------- interpreter
 class Interp(object):
-    def __init__(self, repo, prefix, explorer, contracts=None, cuts=None, invariants=None,
+    def __init__(self, repo, prefix, explorer, contracts=None, cuts=None, invariants=None, uf_cuts=None,
                  math_mode="symbolic", max_unroll=400):
         self.repo = repo
         self.trace = list(prefix)
@@ -264,6 +264,8 @@ class Interp(object):
         self.contracts = contracts or {}      # 'mod:qualname' -> callable(interp, fref, args, kwargs)
         self.cuts = cuts or {}                # (qualname, var, k) -> callable(interp, frame) -> goal
         self.invariants = invariants or {}    # (qualname, loop ordinal) -> dict(inv=callable, ...)
+        self.uf_cuts = uf_cuts or {}          # (qualname, math function, k-th call) -> callable(it, frame, args)
+        self.uf_count = {}
         self.math_mode = math_mode
         self.max_unroll = max_unroll
         self.frames = []
@@ -1263,8 +1265,10 @@ class Interp(object):
         if len(args) == 1:
             args = self.iterate(args[0])
         res = args[0]
+        self.info.setdefault("min_args", []).append(tuple(args))
         for a in args[1:]:
-            res = ite(Num.of(a) < Num.of(res), a, res) if (is_sym(a) or is_sym(res)) else (a if self.branch(self.compare(ast.Lt(), a, res)) else res)
+            if self.branch(self.compare(ast.Lt(), a, res)):      # python: the first minimal element wins
+                res = a
         return norm(res)
 
     def b_max(self, *args, **kw):
@@ -1272,7 +1276,8 @@ class Interp(object):
             args = self.iterate(args[0])
         res = args[0]
         for a in args[1:]:
-            res = ite(Num.of(a) > Num.of(res), a, res) if (is_sym(a) or is_sym(res)) else (a if self.branch(self.compare(ast.Gt(), a, res)) else res)
+            if self.branch(self.compare(ast.Gt(), a, res)):
+                res = a
         return norm(res)
 
     def b_sum(self, seq, start=0):
@@ -1445,6 +1450,40 @@ class Interp(object):
                     return Num.of(getattr(math, name)(*[float(x.frac()) for x in xs]))
                 except ValueError:
                     raise PyRaise("ValueError", "math domain error")
+        # proved-then-assumed facts about the argument, before the domain check forks
+        if self.uf_cuts and self.frames:
+            fr = self.frames[-1]
+            key0 = (fr.func, name)
+            kk = self.uf_count.get(key0, 0) + 1
+            self.uf_count[key0] = kk
+            cut = self.uf_cuts.get((fr.func, name, kk))
+            if cut is not None:
+                facts = []
+                for item in cut(self, fr, xs):
+                    kind = item[0]
+                    base = "%s/cut/%s#%d/" % (fr.func, name, kk)
+                    if kind == "ring":
+                        # exact identity (ring normaliser); kept as a local fact, not put into the path condition
+                        _, cname, lhs, rhs = item
+                        eq = Num.of(lhs).real() == Num.of(rhs).real()
+                        self.vcs.append(("ring:" + base + cname, list(self.pc), eq))
+                        facts.append(eq)
+                    elif kind == "lemma":
+                        # consequence of the facts above alone; assumed on the path when asked
+                        _, cname, goal, keep = item[:4]
+                        hy, gl = list(facts), goal.e
+                        if len(item) > 4:
+                            # prove the lemma in abstract form: the listed terms become fresh real variables
+                            # (valid for all reals, hence for these terms)
+                            sub = [(Num.of(t).real(), z3.Real("abs!%s!%d" % (cname[:8], n_))) for n_, t in enumerate(item[4])]
+                            hy = [z3.substitute(h_, *sub) for h_ in hy]
+                            gl = z3.substitute(gl, *sub)
+                        self.vcs.append((base + cname, hy, gl))
+                        facts.append(goal.e)
+                        if keep:
+                            self.assume(goal)
+                    else:
+                        raise ValueError(kind)
         # domain checks in exact arithmetic
         if name in ("asin", "acos"):
             if self.branch(or_(xs[0] > 1, xs[0] < -1)):
